@@ -317,7 +317,10 @@ def class_graph_case(n, mask, rng: random.Random, root_cls, root_kind, variant="
         module, qual, flav = MOD_A, f"C{i}", rng.choice(["dataclass", "dataclass", "namedtuple", "typeddict", "plainclass"])
         if variant == "nested":
             depth = rng.choice([1, 1, 2])
-            qual = ".".join([f"Outer{i}", f"Mid{i}"][:depth] + [f"C{i}"])
+            # a holder whose name ENDS in the module name: "<module>." re-occurs inside the qualified name without
+            # leading it (refs.forwardref must leave it alone, /repo 31a6d65)
+            outer = f"X{MOD_A}" if rng.random() < 0.3 else f"Outer{i}"
+            qual = ".".join([outer, f"Mid{i}"][:depth] + [f"C{i}"])
             flav = rng.choice(["dataclass", "plainclass"])
         elif variant == "twomod":
             module = MOD_A if i % 2 == 0 else MOD_B
@@ -327,7 +330,7 @@ def class_graph_case(n, mask, rng: random.Random, root_cls, root_kind, variant="
                 flav = rng.choice(["dataclass", "plainclass"])
         elif rng.random() < 0.12:
             # nested classes are ordinary members of every stream
-            qual = f"Outer{i}.C{i}"
+            qual = f"X{MOD_A}.C{i}" if rng.random() < 0.3 else f"Outer{i}.C{i}"
             flav = rng.choice(["dataclass", "plainclass"])
         classes.append({"id": i, "module": module, "qual": qual, "flavour": flav, "fields": []})
     named = []
